@@ -14,7 +14,6 @@ VARIABLE l
 (* l = 0 is a dummy first state: TLC evaluates initial states on the JVM main thread,
    whose stack -Xss does not enlarge; every judgement must happen on a worker thread. *)
 Init == l = 0
-Next == l < Len(T) /\ l' = l + 1
 
 (* C01: item built by the public constructors -> bytes, length, decode back *)
 JudgeC01(r) ==
@@ -49,5 +48,8 @@ Judge(r) == CASE r.t = "c01"   -> JudgeC01(r)
               [] r.t = "c01rl" -> JudgeC01RL(r)
               [] r.t = "c02"   -> JudgeC02(r)
 
-Judged == l >= 1 => Judge(T[l])
+Next == /\ l < Len(T) /\ l' = l + 1
+        /\ IF Judge(T[l + 1]) THEN TRUE ELSE PrintT(<<"REJECT", l + 1>>)   \* report and keep walking
+
+Judged == TRUE
 =============================================================================
